@@ -399,3 +399,14 @@ PROPERTY_META["C19"] = dict(
 # tie window, both ends (product as ghost)
 for t, win in (("f64", "[-4, 23]"), ("f32", "[-17, 10]")):
     K("c11_compute_float_tie_window_" + t, "lemire", C11L, "compute_float::<%s> with the product as ghost, all q in the table range: a tie-shaped product (lo <= 1, truncated bits exactly half, normal range) is rounded to EVEN iff q in %s and UP outside (window ends are literals of the contract, from Lemire's analysis; that real ties have this shape is part of A-LEMIRE)" % (t, win), LEM, features=LEM_CFG, zflags=("stubbing",), timeout=900)
+
+# --------------------------------------------------------------------------- arithmetic facts (Verus compute)
+X("verus_threshold_lemmas", "verus", _tables.make_runner(("thresholds",)), ["C07", "C11", "C06", "C04", "C01", "C02", "C09"],
+  "number-theoretic side facts decided by computation: early-out thresholds of both moderate stages are right AND tight (10^-343 vs 2^-1075, 10^309 vs 2^1024, f32 analogues, Bellerophon +-350/310), tie-window bounds (5^23 < 2^54 < 5^24 ...), exact-product bound 5^27 < 2^64, fast-path limits, longest halfway expansions have 768 / 113 digits, capacity bounds of L-CAP",
+  ["num::Float constants (SMALLEST/LARGEST_POWER_OF_TEN, *_ROUND_TO_EVEN, *_FAST_PATH, MAX_DIGITS)", "bigint::BIGINT_BITS"])
+
+# --------------------------------------------------------------------------- C13 (HeapVec, alloc configurations)
+HV = "heapvec::HeapVec::"
+for nm, b in (("c13_heap_ops_len0_1", "pre-lengths 0 and 1"), ("c13_heap_ops_len3", "pre-length 3")):
+    K(nm, "heapvec", ["C13", "C05", "C12"], "HeapVec try_push / pop / try_extend / try_resize / normalize / is_normalized: contents equal the reference sequence, prefix unchanged, operations never fail (Vec grows), length <= capacity", [HV + "try_push", HV + "pop", HV + "try_extend", HV + "try_resize", HV + "normalize", HV + "is_normalized", HV + "try_from"], strength="bounded", bound=b + ", growth <= 2", features=["alloc", "compact_alloc"], timeout=900)
+K("c13_heap_eq_cmp", "heapvec", ["C13", "C05"], "HeapVec eq / cmp / partial_cmp / from_u64 on vectors of <= 2 limbs", [HV + "eq", HV + "cmp", HV + "partial_cmp", HV + "from_u64"], strength="bounded", bound="<= 2 limbs", features=["alloc", "compact_alloc"], timeout=900)
